@@ -227,3 +227,38 @@ def load_acroform(path):
         terminal = not any(k in info for k in d['kids'])
         out[full] = {'ft': ft, 'maxlen': ml, 'states': sorted(d['states']), 'opts': d['opts'], 'terminal': terminal}
     return out
+
+
+# ---------------------------------------------------------------------------
+# page text (templates without accessibility text: NC forms).  Literal strings
+# and 2-byte glyph strings (glyph id = code point - 29 in these templates) of
+# the text-showing operators, whitespace-normalised.  Used only to *anchor*
+# transcribed instructions in the bundled template (C02), never parsed.
+_PT_CACHE = {}
+
+
+def page_text(path):
+    if path in _PT_CACHE:
+        return _PT_CACHE[path]
+    data=open(path,'rb').read()
+    out=[]
+    for m in re.finditer(rb'stream\r?\n(.*?)\r?\nendstream', data, re.S):
+        try: d=zlib.decompress(m.group(1))
+        except Exception: continue
+        if b'BT' not in d: continue
+        for t in re.finditer(rb'\[((?:[^\]\\]|\\.)*)\]\s*TJ|\(((?:[^()\\]|\\.)*)\)\s*Tj', d, re.S):
+            if t.group(1) is not None:
+                parts=re.findall(rb'\(((?:[^()\\]|\\.)*)\)|<([0-9A-Fa-f]+)>', t.group(1))
+                s=b''
+                for lit,hx in parts:
+                    if lit: s+=lit
+                    elif hx and len(hx)%4==0:
+                        s+=bytes((int(hx[i:i+4],16)+29)&0xff for i in range(0,len(hx),4))
+            else: s=t.group(2)
+            out.append(re.sub(rb'\\([()\\])', rb'\1', s).decode('latin1'))
+        for t in re.finditer(rb'<([0-9A-Fa-f]+)>\s*Tj', d):
+            hx=t.group(1)
+            if len(hx)%4==0:
+                out.append(bytes((int(hx[i:i+4],16)+29)&0xff for i in range(0,len(hx),4)).decode('latin1'))
+    _PT_CACHE[path] = ' '.join(' '.join(out).split())
+    return _PT_CACHE[path]
